@@ -110,6 +110,13 @@ def gen_cases(rec, rng, tier):
         t2 = rng.choice(variants)
         for op in '+.':
             yield {'cls': 'near_duplicate_operands', 'tree': (op, t, t2), 'n': 3, 'cpu': 2, 'simplify_only': rx.size_iter(t) > 8}
+            yield {'cls': 'near_duplicate_starred_operands', 'tree': (op, ('*', t), ('*', t2)), 'n': 3, 'cpu': 2, 'simplify_only': rx.size_iter(t) > 6}
+        yield {'cls': 'near_duplicate_starred_operands', 'tree': ('*', ('.', t, t2)), 'n': 3, 'cpu': 2, 'simplify_only': rx.size_iter(t) > 6}
+        if t[0] in '+.':
+            sw = (t[0], t[2], t[1])
+            for op in '+.':
+                yield {'cls': 'operands_swapped', 'tree': (op, ('*', t), ('*', sw)), 'n': 4, 'cpu': 2, 'simplify_only': rx.size_iter(t) > 6}
+                yield {'cls': 'operands_swapped', 'tree': (op, t, sw), 'n': 4, 'cpu': 2, 'simplify_only': rx.size_iter(t) > 8}
     for t in common.shard_slice(rxg.enum_trees(6 if thorough else 5, rxg.LEAVES01), rec):
         yield {'cls': 'enum_tree_digit_symbols', 'tree': t, 'n': 4, 'own_alphabet': True}
     for _ in range(60 if thorough else 20):
